@@ -207,6 +207,13 @@ def check_moving_average(chk, prog, sim, maxlen):
                                   % (k, leaf.info.get("msg"), K.leaf_site(leaf), [p for p in leaf.pc if p[0] == "rel"]), fn=up["pretty"], file=loc(leaf.info.get("span")))
                     ok = False
                     continue
+                thr = sorted(n for n in leaf.state.notes if str(n).startswith("length-threshold:"))
+                if thr:
+                    chk.violation("C12.weights", "%s:length-threshold" % key, "MovingAverageStream::update compares the number of queued samples with %s, beyond every queue length explored here: the average is no longer a "
+                                  "function of the samples inside the window alone once that many samples are queued (e.g. a cap that drops in-window samples)" % thr[0].split(":")[1],
+                                  fn=up["pretty"], file=loc(up["span"]))
+                    ok = False
+                    continue
                 post = sim.final_value(leaf.state, leaf.state.mem[oid])
                 q = post.fields[qi]
                 kept = list(q.data[0])
